@@ -33,6 +33,9 @@ HEADERS = {   # header-driven formats: the column names the file itself carries
 }
 
 
+BED_NAME = "GENE ONE"      # BED is tab-separated: a name may contain a blank (e.g. "TERT promoter")
+
+
 class AbsLine:
     """one data line of a text file with symbolic coordinate fields"""
 
@@ -75,7 +78,7 @@ def file_model(fmt, FS, FE):
 
     def as_handle(it, infile, *a, **k):
         if fmt in ("bed", "bed3", "bed4"):
-            return iter([AbsLine(["chr1", FS, FE, "GENE", "0", "+"], "bed")])
+            return iter([AbsLine(["chr1", FS, FE, BED_NAME, "0", "+"], "bed")])
         if fmt == "text":
             return iter([AbsLine(["chr1", FS, FE, "GENE"], "text")])
         if fmt == "seg":
@@ -88,7 +91,16 @@ def file_model(fmt, FS, FE):
     def line_method(it, obj, name, args, kw):
         if isinstance(obj, AbsLine):
             if name == "split":
-                return list(obj.fields)
+                sep = args[0] if args else kw.get("sep")
+                if sep == "\t" or obj.kind != "bed":
+                    return list(obj.fields)
+                if sep is None:
+                    # whitespace splitting also cuts inside a field that contains a blank
+                    out = []
+                    for f in obj.fields:
+                        out += f.split() if isinstance(f, str) else [f]
+                    return out
+                raise Undecided(f"line.split({sep!r})")
             if name == "startswith":
                 pre = args[0] if isinstance(args[0], tuple) else (args[0],)
                 first = obj.fields[0] if isinstance(obj.fields[0], str) else ""
@@ -232,6 +244,28 @@ def d1_offsets(chk, prog):
         untouched = same(df_in.cols["start"].v[0], MS) and same(df_in.cols["end"].v[0], ME)
         chk.decide(untouched, "coordinate-offset", f"writer {fmt}: the caller's frame is not modified", f"writer-input:{fmt}:{fi.qn}", fi.loc(),
                    f"writer shifts the coordinates of the frame it was given (start now {df_in.cols['start'].v[0]!r})")
+        if fmt != "bed3":
+            # the same writer on a table that also carries a strand column (read from a 6-column BED or an interval list)
+            W.reset()
+            MS, ME = Term.sym("mem_start", 0, INF, True), Term.sym("mem_end", 1, INF, True)
+            cols2 = dict(cols, start=MS, end=ME, strand="+")
+            df2 = DF({k: Vec([v]) for k, v in cols2.items()}, 1)
+            it2 = Interp(prog, Model())
+            try:
+                out2 = it2.run(fi.qn, [df2], kw)
+            except Undecided as e:
+                raise AnalysisError(f"C08-D1 writer {fmt} on a stranded table ({fi.qn}): cannot decide: {e}")
+            except Raised as e:
+                chk.violate("coordinate-offset", f"writer-stranded:{fmt}:{fi.qn}", fi.loc(), f"writer raises on a one-row table with a strand column: {e}")
+                continue
+            s2 = None
+            if isinstance(out2, DF) and sc in out2.cols:
+                s2 = out2.cols[sc].v[0]
+            elif isinstance(out2, Vec) and out2.v and isinstance(out2.v[0], FStr):
+                s2 = out2.v[0].field(":")
+            ok2 = same(df2.cols["start"].v[0], MS) and same(df2.cols["end"].v[0], ME) and s2 is not None and same(s2, t_add(MS, Term.const(BASE[fmt])))
+            chk.decide(ok2, "coordinate-offset", f"writer {fmt} on a table with a strand column: same offset, caller's frame not modified", f"writer-stranded:{fmt}:{fi.qn}", fi.loc(),
+                       f"with a strand column present the writer emits start {s2!r} and leaves the caller's start at {df2.cols['start'].v[0]!r} (expected {t_add(MS, Term.const(BASE[fmt]))!r} and {MS!r})")
     chk.floor("C08 readers judged", n_r, 12)
     chk.floor("C08 writers judged", n_w, 8)
     for fmt in sorted(set(r_off) & set(w_off)):
@@ -308,6 +342,32 @@ def d2_sorted(chk, prog):
             assigns = [k.arg for n in own_nodes(s.node) if isinstance(n, ast.Call) and isinstance(n.func, ast.Attribute) and n.func.attr == "assign" for k in n.keywords]
             ok = bys[0] in assigns
     chk.decide(ok, "sorted-on-read", "GenomicArray.sort: stable sort by (sorter_chrom key, start, end)", "skgenome.gary.GenomicArray.sort", s.loc(), detail, detail=detail)
+
+
+def d1_bed_names(chk, prog):
+    """BED readers keep the whole 4th tab-separated field as the name (shared with C09: the read-count path reads its bins through them)"""
+    readers = registry(prog, "READERS")
+    n = 0
+    for fmt in ("bed", "bed4"):
+        fi = readers.get(fmt)
+        if fi is None:
+            continue
+        W.reset()
+        FS, FE = Term.sym("file_start", 1, INF, True), Term.sym("file_end", 1, INF, True)
+        it = Interp(prog, file_model(fmt, FS, FE))
+        try:
+            df = it.run(fi.qn, ["<infile>"])
+        except Undecided as e:
+            raise AnalysisError(f"BED reader {fmt} ({fi.qn}): cannot decide: {e}")
+        except Raised as e:
+            chk.violate("coordinate-offset", f"reader-name:{fmt}:{fi.qn}", fi.loc(), f"reader raises on a well-formed one-record file: {e}")
+            continue
+        df = df.data if isinstance(df, GA) else df
+        g = df.cols["gene"].v[0] if isinstance(df, DF) and "gene" in df.cols else None
+        n += 1
+        chk.decide(g == BED_NAME, "coordinate-offset", f"reader {fmt}: the name column is the whole 4th tab-separated field", f"reader-name:{fmt}:{fi.qn}", fi.loc(),
+                   f"a BED name containing a blank ({BED_NAME!r}) is read back as {g!r}")
+    chk.floor("BED readers with a name column", n, 2)
 
 
 def d1_segnames(chk, prog):
@@ -480,6 +540,7 @@ def run(chk):
               "pysam: record.start is 0-based (POS-1), record.pos is POS, info['END'] is END", "pandas read_csv(names=) yields the named columns unchanged")
     chk.assume("a reader treats every data row alike (row-wise parametricity), so one symbolic row decides the offset for all rows")
     d1_offsets(chk, prog)
+    d1_bed_names(chk, prog)
     d1_segnames(chk, prog)
     d2_sorted(chk, prog)
     d2_order(chk, prog)
@@ -508,6 +569,18 @@ MUTANTS = [
     dict(name="seeded C08d: chr prefix stripped case-sensitively", file="skgenome/chromsort.py", old='chrom = label[3:] if label.lower().startswith("chr") else label', new='chrom = label.removeprefix("chr")'),
     dict(name="sort key: Y before X", file="skgenome/chromsort.py", old='        key = (1000, chrom)', new='        key = (1000, "A" if chrom == "Y" else chrom)'),
     dict(name="twin: prefix stripped through a slice of the lowered label", expect="silent", file="skgenome/chromsort.py", old='chrom = label[3:] if label.lower().startswith("chr") else label', new='chrom = label[3:] if label[:3].lower() == "chr" else label'),
+    dict(name="seeded C08e: interval writer copies only when a column is missing", file=_T + "picard.py", old="""    dframe = dframe.copy()
+    dframe["start"] += 1
+    if "gene" not in dframe:
+        dframe["gene"] = "-"
+    if "strand" not in dframe:
+        dframe["strand"] = "+"
+""", new="""    placeholders = {col: default for col, default in (("gene", "-"), ("strand", "+")) if col not in dframe}
+    if placeholders:
+        dframe = dframe.assign(**placeholders)
+    dframe["start"] += 1
+"""),
+    dict(name="seeded C08f: BED fields split on any whitespace", file=_T + "bedio.py", old='        fields = line.split("\\t", 6)', new="        fields = line.split(None, 6)"),
     dict(name="seg reader forgets -1", file=_T + "seg.py", old='    dframe["start"] -= 1\n', new="", mention="reader:seg"),
     dict(name="seg writer forgets +1", file=_T + "seg.py", old="start=dframe.start + 1)", new="start=dframe.start)", mention="writer:seg"),
     dict(name="from_label forgets -1", file="skgenome/rangelabel.py", old="start = int(start) - 1 if start else None", new="start = int(start) if start else None", mention="reader:text"),
